@@ -142,7 +142,8 @@ def build():
     if missing:
         log(f"BUILD FAILED: no binary for {missing} in {BIN_DIR}")
         return False, dt
-    log(f"[build examples: {dt:.1f}s]" + (f" [VERIF_REPO_OVERRIDE: {REPO} -> {os.path.dirname(EVIDENCE)}]" if REPO_OVERRIDE else ""))
+    note = f" [VERIF_REPO_OVERRIDE: {REPO} -> {os.path.dirname(EVIDENCE)}]" if REPO_OVERRIDE else ""
+    log(f"[build examples: {dt:.1f}s]{note}")
     return True, dt
 
 
